@@ -19,6 +19,8 @@ mod p11;
 mod p12;
 mod p13;
 mod p14;
+mod p15;
+mod p16;
 mod csg;
 
 use engine::*;
@@ -41,6 +43,8 @@ macro_rules! for_prop {
             "C12" => $f::<p12::P>($($arg),*),
             "C13" => $f::<p13::P>($($arg),*),
             "C14" => $f::<p14::P>($($arg),*),
+            "C15" => $f::<p15::P>($($arg),*),
+            "C16" => $f::<p16::P>($($arg),*),
             other => {
                 eprintln!("unknown property {other}");
                 std::process::exit(2)
